@@ -143,7 +143,7 @@ Proof.
   - destruct f; [discriminate | reflexivity].
   - destruct f; [destruct x|]; cbn; apply IH; auto.
 Qed.
-Lemma prescribed_untouched free p w e i : nth i free true = false -> nth i (wls_step_free ROps free p w e) 0 = 0.
+Lemma prescribed_q_untouched free p w e i : nth i free true = false -> nth i (wls_step_free ROps free p w e) 0 = 0.
 Proof. apply unpack_zero_in_known_slots. Qed.
 
 Inductive zero_at_known : list bool -> list R -> Prop :=
@@ -290,7 +290,7 @@ Qed.
 
 (** m ROWS: any step of the form W^-1 A^T y has the least weighted norm among all corrections d that produce the same
     constraint-row products A d (in particular among all that remove the same constraint errors) *)
-Lemma wls_step_rows_min_norm A w y d :
+Lemma wls_step_rows_min_norm_partial A w y d :
   Forall (fun row => length row = length w) A -> length y = length A -> length d = length w ->
   Forall (fun k => 0 < k) w ->
   Amul ROps A d = Amul ROps A (wls_step_rows ROps A w y) ->
